@@ -7,13 +7,11 @@ Import ListNotations.
 Local Open Scope Z_scope.
 
 Inductive finding :=
-| F_plain_copy          (* plain COPY: handler reads the command word as the set *)
 | F_fetch_star          (* FETCH *      -> every message *)
 | F_fetch_comma         (* FETCH a,b    -> BAD *)
 | F_fetch_star_first    (* FETCH *:n    -> message n only *)
 | F_fetch_reversed      (* FETCH a:b, a>b -> message a only *)
 | F_fetch_beyond        (* FETCH n:*, n>N -> nothing instead of N *)
-| F_fetch_single_label  (* FETCH n, n>=2 -> "* 1 FETCH" *)
 | F_search_star | F_search_comma | F_search_star_first | F_search_reversed
 | F_search_beyond | F_search_huge
 | F_uidsearch_shape     (* UID SEARCH UID <set>: only a:b with a<=b is implemented *)
@@ -48,7 +46,7 @@ Definition classify_fetch (s : seqset) (n : Z) : option finding :=
   match s with
   | [] => None
   | [One Star] => if 2 <=? n then Some F_fetch_star else None
-  | [One (Num k)] => if (2 <=? k) && (k <=? n) then Some F_fetch_single_label else None
+  | [One (Num k)] => None
   | [Range (Num a) (Num b)] => if (b <? a) && (b <=? n) then Some F_fetch_reversed else None
   | [Range (Num a) Star] => if (n <? a) && (1 <=? n) then Some F_fetch_beyond else None
   | [Range Star (Num b)] => if negb (b =? n) && (1 <=? n) then Some F_fetch_star_first else None
@@ -76,12 +74,12 @@ Definition classify_uidsearch (s : seqset) : option finding :=
   | _ => Some F_uidsearch_shape
   end.
 
-(** plain COPY: every dispatched command line [tag; word; set; mailbox] *)
-Definition classify_copy (parts : list str) : option finding :=
-  match parts with
-  | _ :: w :: _ :: _ => if equal_fold w (S_ "COPY") then Some F_plain_copy else None
-  | _ => None
-  end.
+(** COPY may repeat a message when items of the set overlap (the parser
+    returns a list): the number of copies lies between the size of the
+    denoted set and the sum of the sizes of its items *)
+Definition copy_count_ok (s : seqset) (n c : Z) : bool :=
+  (Z.of_nat (length (addressed s n)) <=? c)
+  && (c <=? fold_right Z.add 0 (map (fun it => Z.of_nat (length (addressed [it] n))) s)).
 
 (** EXPUNGE family: some stored flag string is matched by LIKE without
     containing the \Deleted atom *)
